@@ -151,7 +151,12 @@ func c09Pairs(c *core.Ctx) []*c09Pair {
 	add("blank->2 parts", 512, 10*MiB, nil, a)
 	add("5->1 parts", 512, 12*MiB, genGPT(r, ds(12*MiB, 512), 512, 5, nil, true), genGPT(r, ds(12*MiB, 512), 512, 1, nil, true))
 	add("sparse indices 12 parts", 512, 16*MiB, genGPT(r, ds(16*MiB, 512), 512, 4, []int{1, 5, 9, 128}, true), genGPT(r, ds(16*MiB, 512), 512, 12, nil, true))
+	// tables written without a protective MBR (the option is off by default): LBA 0 never carries one
+	np := func(t *gpt.Table) *gpt.Table { x := cloneGPT(t); x.ProtectiveMBR = false; return x }
+	add("no protective MBR, 2->3 parts", 512, 10*MiB, np(a), np(b))
+	add("protective MBR only in the old table, rename", 512, 10*MiB, a, np(b2))
 	if c.Tier == "thorough" {
+		add("no protective MBR, blank->2 parts", 512, 10*MiB, nil, np(a))
 		add("4k sectors 2->4", 4096, 64*MiB, genGPT(r, ds(64*MiB, 4096), 4096, 2, nil, true), genGPT(r, ds(64*MiB, 4096), 4096, 4, nil, true))
 		add("128 entries", 512, 32*MiB, genGPT(r, ds(32*MiB, 512), 512, 3, nil, true), genGPT(r, ds(32*MiB, 512), 512, 128, nil, true))
 		add("128->0 entries", 512, 32*MiB, genGPT(r, ds(32*MiB, 512), 512, 128, nil, true), genGPT(r, ds(32*MiB, 512), 512, 0, nil, true))
